@@ -29,6 +29,27 @@ def mutations(nodes):
             for k, v in (n.get("parameters") or {}).items():
                 m = copy.deepcopy(nodes); m[i]["parameters"][k] = v + 1.0 if isinstance(v, float) else str(v) + "x"
                 out.append((f"node{i}:param:{k}", m, i))
+            # string-defined processors: every argument inside the processor string is identity-bearing
+            proc = n["processor"]
+            if isinstance(proc, str) and ":" in proc:
+                head, *args = proc.split(":")
+                STRING_MUTS = {"slice": [("wrapped-processor", 0, {"FloatMultiplyOperation": "FloatMultiplyOperationWithDefault", "FloatCollectValueProbe": "FloatBasicProbe"})],
+                               "rename": [("source-key", 0, None), ("destination-key", 1, None)], "delete": [("key", 0, None)],
+                               "template": [("text", 0, None), ("output-key", 1, None)]}
+                for tag, pos, table in STRING_MUTS.get(head, []):
+                    if pos >= len(args):
+                        continue
+                    new = list(args)
+                    if table is not None:
+                        if args[pos] not in table:
+                            continue
+                        new[pos] = table[args[pos]]
+                    elif head == "template" and pos == 0:
+                        new[pos] = args[pos][:-1] + "!" + args[pos][-1]          # one more character inside the quoted text
+                    else:
+                        new[pos] = args[pos] + "2"
+                    m = copy.deepcopy(nodes); m[i]["processor"] = ":".join([head] + new)
+                    out.append((f"node{i}:string-processor:{head}:{tag}", m, i))
         else:
             m = copy.deepcopy(nodes)
             swap = {"FloatValueDataSource": "FloatValueDataSourceWithDefault", "FloatMultiplyOperation": "FloatMultiplyOperationWithDefault"}
@@ -119,7 +140,7 @@ for name, nodes, ctx in idlib.base_configs():
             if a_ids[key] == b_ids[key]:
                 failures.append({"class": f"{key}-unchanged-by:sweep-sequence-element", "config": name, "mutation": plabel})
     PAIRS.clear()
-print(json.dumps({"bound": "5 base configurations x single-point mutations (incl. every single element of a 9-value explicit sweep sequence) (processor, parameter value, context key, node count/order, sweep: wrapped processor, expression constant / non-commutative operator, variable domain, mode, broadcast) at every applicable position",
+print(json.dumps({"bound": "7 base configurations x single-point mutations (string-defined processors: slice wrapped processor, rename/delete keys, template text and output key); (incl. every single element of a 9-value explicit sweep sequence) (processor, parameter value, context key, node count/order, sweep: wrapped processor, expression constant / non-commutative operator, variable domain, mode, broadcast) at every applicable position",
                   "evaluations": evaluations, "distinct_nontrivial": len(distinct),
                   "rule": "distinct = (configuration, mutation); each mutation changes the documented meaning, so semantic_id and config_id must change",
                   "failures": failures[:40], "samples": samples}, default=str))
